@@ -186,6 +186,7 @@ type TraceEv struct {
 	CandSt []int64 // 11: their statuses as passed
 	QOrder []int64 // 11: pop order of the victims queue over these candidates
 	PAlloc []int64 // 11: what the preemptor's job holds (recorder ledger), EncRes
+	Reached int64  // 11: 0-based index of the last tier this Preemptable / Reclaimable call reached (tier markers)
 	Roles  []int64 // 13: (role, occupied pods of that role) for every role minimum of the job's spec
 	Action int64   // index into Spec.Actions
 	obs    []CandObs
@@ -288,6 +289,49 @@ func (p *recPlugin) OnSessionOpen(ssn *framework.Session) {
 	})
 }
 func (p *recPlugin) OnSessionClose(ssn *framework.Session) {}
+
+// tierPlugin: an abstaining marker in front of every tier after the first.  Session.Preemptable / Reclaimable call
+// it exactly when the walk reaches its tier (no earlier tier decided), with the arguments of the call; it
+// notes the tier on the vote event the recorder (first plugin of tier 0) made for the same call.
+type tierPlugin struct {
+	w    *World
+	idx  int64
+	name string
+}
+
+func tierMarkerName(i int) string { return fmt.Sprintf("verif-evict-tier-%d", i) }
+func (p *tierPlugin) Name() string { return p.name }
+func (p *tierPlugin) OnSessionOpen(ssn *framework.Session) {
+	mark := func(pt *api.TaskInfo, cands []*api.TaskInfo) ([]*api.TaskInfo, int) {
+		w := p.w
+		pid := sched.ParseID(string(pt.UID))
+		w.mu.Lock()
+		defer w.mu.Unlock()
+		for k := len(w.Trace) - 1; k >= 0; k-- {
+			e := &w.Trace[k]
+			if e.Kind != 11 || e.Task != pid || len(e.Cands) != len(cands) {
+				continue
+			}
+			same := true
+			for i, c := range cands {
+				if e.Cands[i] != sched.ParseID(string(c.UID)) {
+					same = false
+					break
+				}
+			}
+			if same {
+				if e.Reached < p.idx {
+					e.Reached = p.idx
+				}
+				break
+			}
+		}
+		return nil, 0 // abstain
+	}
+	ssn.AddPreemptableFn(p.name, mark)
+	ssn.AddReclaimableFn(p.name, mark)
+}
+func (p *tierPlugin) OnSessionClose(ssn *framework.Session) {}
 
 // roleCounts: for every role minimum the job's SPEC declares (not what the JobInfo iterates over), the
 // number of the job's pods of that role that hold or are promised resources at this moment (allocated
@@ -507,6 +551,10 @@ func NewWorld(spec Spec) *World {
 		ct := conf.Tier{}
 		if i == 0 {
 			ct.Plugins = append(ct.Plugins, opt(recorderName))
+		} else {
+			name, idx := tierMarkerName(i), int64(i)
+			framework.RegisterPluginBuilder(name, func(framework.Arguments) framework.Plugin { return &tierPlugin{w: w, idx: idx, name: name} })
+			ct.Plugins = append(ct.Plugins, opt(name))
 		}
 		for _, p := range t {
 			o := conf.PluginOption{Name: kindName[p.Kind]}
